@@ -1971,4 +1971,4 @@ mod tests {
 
 #[cfg(kani)]
 #[path = "/verif/units/kani/core_multi_proof.rs"]
-mod verif_kani;
+pub(crate) mod verif_kani;
